@@ -22,7 +22,8 @@ def cases(tier, seed, args):
         K = 2 + (i % 2)
         out.append(dict(t='scene', K=K, D=int(rng.integers(K + 1, 9 if not q else 6)), F=33 if q else int(rng.choice([33, 65, 257])),
                         T=int(rng.integers(60, 100 if q else 201)), model=['cacgmm', 'cwmm'][(i // 2) % 2],
-                        seed=int(rng.integers(1 << 30)), names=NAMES[:4] if q else NAMES))
+                        seed=int(rng.integers(1 << 30)), names=(NAMES[:4] + ['wmwf']) if q else NAMES,
+                        amp=[1.0, 1e-3, 1e3, 1e-4][i % 4]))       # recording level: the whole chain is scale free
     return out
 
 
@@ -41,7 +42,9 @@ def run_case(case):
     for k in range(K):
         images[k] = np.einsum('fd,ft->fdt', steer[:, k], s * (truth == k))
     noise = 1e-2 * (rng.normal(size=(F, D, T)) + 1j * rng.normal(size=(F, D, T)))     # -40 dB
-    Y = images.sum(0) + noise                                                           # (F, D, T)
+    amp = case.get('amp', 1.0)
+    images = images * amp
+    Y = images.sum(0) + noise * amp                                                     # (F, D, T)
     # DHTV configuration with shift <= width / 3
     width = max(6, F // 3)
     start = F // 3
@@ -60,7 +63,7 @@ def run_case(case):
     init = 0.7 * init + 0.3 / K
     trainer = CACGMMTrainer() if case['model'] == 'cacgmm' else CWMMTrainer()
     obs_mm = np.ascontiguousarray(np.transpose(Y, (0, 2, 1)))                           # (F, T, D)
-    fp = f't=scene;model={case["model"]};K={K};F={F}'
+    fp = f't=scene;model={case["model"]};K={K};F={F};amp={amp:g}'
     key = f'scene:{case["seed"]}'
     model, exc = call(trainer.fit, obs_mm, initialization=init, iterations=10)
     if model is None:
